@@ -81,7 +81,12 @@ HelperOK(r) ==
     IN
     \* lerp is a (1 - t) + b t as written: two products, so the error is relative to |a (1 - t)| + |b t| (the endpoints come
     \* back exactly at t = 0 and t = 1 whatever their magnitudes); ulerp is a + (b - a) t, relative to |a| + |a t| + |b t|
-    CASE r.fn = "lerp" -> Within(t, r.out[1], <<<<a[1], D!DSub(D!DOne, a[3])>>, <<a[2], a[3]>>>>)
+    \* a transcendental function of the math library: the binding's value against libm's own value of the same function
+    \* (logged beside it), to 8 ulp of the double result
+    CASE r.fn = "libm" -> LET ref == Num(t, r.ref[1]) IN
+                          /\ I!IsFinite(Fm(t), I!Dec(t, r.out[1]))
+                          /\ D!DWithin(out, ref, D!DAdd(D!DMul(D!DScale(Eps(t), 3), D!DAbs(ref)), Tiny(t)))
+      [] r.fn = "lerp" -> Within(t, r.out[1], <<<<a[1], D!DSub(D!DOne, a[3])>>, <<a[2], a[3]>>>>)
       [] r.fn = "ulerp" -> Within(t, r.out[1], <<<<a[1]>>, <<D!DNeg(D!DOne), a[1], a[3]>>, <<a[2], a[3]>>>>)
       [] r.fn = "lerpfactor" ->
            LET n == D!DSub(a[1], a[2])  d == D!DSub(a[3], a[2])
@@ -136,6 +141,15 @@ IntHelperOK(r) ==
       \* a (8 - k) / 8 + b k / 8, truncated
       [] r.fn \in {"lerp", "ulerp"} -> r.out = TruncDiv8(a[1] * (8 - a[3]) + a[2] * a[3])
       [] OTHER -> FALSE
+
+\* two routes to the same values (an array form and an element-wise reference through another binding): equal to k ulp at the
+\* scale of the largest value
+SameOK(r) ==
+    LET t == r.t  x == Nums(t, r.x)  y == Nums(t, r.y)
+        sc == MaxAbsSeq(y, 1)
+    IN  /\ Len(x) = Len(y) /\ FinAll(t, r.x)
+        /\ \A i \in 1..Len(x) : D!DWithin(x[i], y[i], D!DAdd(D!DMul(D!DMul(D!DInt(r.k), Eps(t)), D!DAdd(D!DAbs(y[i]), sc)), Tiny(t)))
+RetTypeOK(r) == r.got = r.want
 
 \* ---- roots -------------------------------------------------------------------------------------
 KRoot(fn) == IF fn \in {"linear", "quadratic"} THEN 64 ELSE 4096
@@ -254,11 +268,11 @@ PackedOK(r) == r.q4 = r.p /\ r.q3 = <<(r.p[1] % 256) + 65280, r.p[2]>>
 
 Judge(r) ==
     CASE r.e = "stratum" -> StratumOK(r) [] r.e = "delta" -> DeltaOK(r) [] r.e = "frun" -> FrunOK(r)
-      [] r.e = "sd" -> SdOK(r) [] r.e = "idiv" -> IdivOK(r) [] r.e = "fn" -> HelperOK(r) [] r.e = "ifn" -> IntHelperOK(r)
+      [] r.e = "sd" -> SdOK(r) [] r.e = "idiv" -> IdivOK(r) [] r.e = "fn" -> HelperOK(r) [] r.e = "ifn" -> IntHelperOK(r) [] r.e = "same" -> SameOK(r) [] r.e = "rettype" -> RetTypeOK(r)
       [] r.e = "roots" -> RootsOK(r) [] r.e = "delegate" -> DelegateOK(r)
       [] r.e = "hsv" -> HsvOK(r) [] r.e = "hsvi" -> HsviOK(r) [] r.e = "packed" -> PackedOK(r)
       [] OTHER -> FALSE
-What(r) == CASE r.e \in {"stratum", "delta", "frun", "fn", "delegate"} -> <<r.e, r.fn>> [] r.e = "ifn" -> <<r.e, r.fn, r.t>>
+What(r) == CASE r.e \in {"stratum", "delta", "frun", "fn", "delegate"} -> <<r.e, r.fn>> [] r.e = "ifn" -> <<r.e, r.fn, r.t>> [] r.e \in {"same", "rettype"} -> <<r.e, r.what>>
              [] r.e = "roots" -> <<r.e, r.fn, r.kind, r.t>>
              [] r.e = "hsv" -> <<r.e, r.dir, r.t>>
              [] OTHER -> <<r.e>>
